@@ -92,7 +92,9 @@ Record provider := mkP {
   p_cn : string;           (* Subject.CommonName of the leaf *)
   p_sans : list string;    (* DNS SANs of the leaf *)
   p_alpn_cfg : list string;(* the configured "alpn" string split at "," ([] when the string is empty) *)
-  p_sname : string         (* server_name ("" when not configured) *)
+  p_sname : string;        (* server_name ("" when not configured) *)
+  p_require : bool;        (* require_client_cert *)
+  p_verify : bool          (* verify_client *)
 }.
 
 (* tlsConfigTemplate: keep the token (as written) when its lower-case form is whitelisted *)
@@ -217,10 +219,30 @@ Fixpoint mismatches_from {A} (ok : A -> bool) (i : nat) (l : list A) : list nat 
 Definition opt_nat_eqb (a b : option nat) : bool :=
   match a, b with Some x, Some y => Nat.eqb x y | None, None => true | _, _ => false end.
 
-(* providers, sni, client protos, index the real GetConfigForClient chose *)
-Definition sel_case := (list provider * string * list string * option nat)%type.
+(* tls.ClientAuthType values *)
+Definition auth_code (m : auth_mode) : N :=
+  match m with NoClientCert => 0 | RequestClientCert => 1 | VerifyClientCertIfGiven => 3 | RequireAndVerifyClientCert => 4 end.
+
+(* what the tls.Config handed to crypto/tls for provider p carries: ClientAuth and NextProtos *)
+Definition effective (white : list string) (p : provider) : N * list string :=
+  (auth_code (client_auth (p_require p) (p_verify p)), next_protos white p).
+
+Definition str_list_eqb (a b : list string) : bool :=
+  andb (Nat.eqb (List.length a) (List.length b)) (forallb (fun xy => String.eqb (fst xy) (snd xy)) (combine a b)).
+
+(* providers, sni, client protos, index the real GetConfigForClient chose, ClientAuth and NextProtos of the returned config *)
+Definition sel_case := (list provider * string * list string * option nat * N * list string)%type.
 Definition sel_case_ok lk white (k : sel_case) : bool :=
-  match k with (ps, sni, protos, got) => opt_nat_eqb (select lk white ps sni protos) got end.
+  match k with (ps, sni, protos, got, gauth, gprotos) =>
+    andb (opt_nat_eqb (select lk white ps sni protos) got)
+         (match got with
+          | None => true
+          | Some i => match nth_error ps i with
+                      | None => false
+                      | Some p => andb (N.eqb (fst (effective white p)) gauth) (str_list_eqb (snd (effective white p)) gprotos)
+                      end
+          end)
+  end.
 Definition sel_mismatches lk white (l : list sel_case) : list nat := mismatches_from (sel_case_ok lk white) 0 l.
 
 (* one provider, a string, the real MatchedServerName answer, a proto list, the real MatchedALPN answer *)
